@@ -297,7 +297,8 @@ func oracle(h *History, rs []Res) (fs []failure, issues []*issueRec) {
 				}
 				i := &issueRec{op: k, access: r.Access, refresh: r.Refresh, secret: r.Secret}
 				if src != nil {
-					i.user, i.role, i.exp = src.user, src.role, src.exp
+					// Refresh opens a new access window: ExpiresAt = the reading it signs with + the access TTL
+					i.user, i.role, i.exp = src.user, src.role, last+op.TTLms*1e6
 					src.rotated = true
 				}
 				issues = append(issues, i)
@@ -431,7 +432,7 @@ func coqHistory(h *History, rs []Res) string {
 		case "create_token":
 			cop = fmt.Sprintf("CCreateToken %s %s %d %d", hx.CoqString(op.User), hx.CoqString(op.Role), op.TTLms*1000000, n1)
 		case "refresh":
-			cop = fmt.Sprintf("CRefresh %s %d %d", coqPres(h, rs, ord, op.Tok), n1, n2)
+			cop = fmt.Sprintf("CRefresh %s %d %d %d", coqPres(h, rs, ord, op.Tok), op.TTLms*1000000, n1, n2)
 		case "validate":
 			cop = fmt.Sprintf("CValidate %s %d %d", coqPres(h, rs, ord, op.Tok), n1, n2)
 		case "revoke":
@@ -570,7 +571,7 @@ func genHistory(r *hx.Rng) *History {
 					p.Mut = "flip"
 				}
 			}
-			h.Ops = append(h.Ops, Op{Op: "refresh", Tok: p})
+			h.Ops = append(h.Ops, Op{Op: "refresh", Tok: p, TTLms: hx.Pick(r, []int64{2000, 5000, 60000})})
 			issuers = append(issuers, len(h.Ops)-1)
 			// the access token a successful refresh returns must be valid at once
 			h.Ops = append(h.Ops, Op{Op: "validate", Tok: Pres{Base: len(h.Ops) - 1, Which: "access", Mut: "none"}})
@@ -589,6 +590,15 @@ func genHistory(r *hx.Rng) *History {
 	return h
 }
 
+// normalize: every refresh names the access TTL the store has at that moment (the driver sets SessionStore.ttl to it)
+func normalize(h *History) {
+	for i := range h.Ops {
+		if h.Ops[i].Op == "refresh" && h.Ops[i].TTLms == 0 {
+			h.Ops[i].TTLms = 5000
+		}
+	}
+}
+
 func v(base int, which, mut string) Op { return Op{Op: "validate", Tok: Pres{Base: base, Which: which, Mut: mut}} }
 
 // corpus: one history per known finding, the happy paths, and the mutation grid
@@ -604,6 +614,13 @@ func corpus() []*History {
 		{Ops: []Op{sec, cs(60000, 600000), {Op: "refresh", Tok: Pres{Base: 1, Which: "refresh", Mut: "none"}}, v(2, "access", "none"), v(1, "access", "none"), {Op: "refresh", Tok: Pres{Base: 1, Which: "refresh", Mut: "none"}}, v(1, "refresh", "none"), {Op: "refresh", Tok: Pres{Base: 2, Which: "refresh", Mut: "none"}}, v(7, "access", "none")}},
 		// S9 (ii) refresh after the access token expired returns an already expired access token
 		{Ops: []Op{sec, cs(2000, 600000), {Op: "tick", Ms: 3500}, {Op: "refresh", Tok: Pres{Base: 1, Which: "refresh", Mut: "none"}}, v(3, "access", "none")}},
+		// the refreshed token lives for a full new access window (5 s here), not until the old expiry, and no longer
+		{Ops: []Op{sec, cs(2000, 600000), {Op: "tick", Ms: 3500}, {Op: "refresh", Tok: Pres{Base: 1, Which: "refresh", Mut: "none"}}, v(3, "access", "none"),
+			{Op: "tick", Ms: 4000}, v(3, "access", "none"), {Op: "tick", Ms: 1500}, v(3, "access", "none")}},
+		// chained refreshes keep a session alive beyond the first access window; the refresh window is not extended
+		{Ops: []Op{sec, cs(2000, 9000), {Op: "tick", Ms: 1500}, {Op: "refresh", TTLms: 2000, Tok: Pres{Base: 1, Which: "refresh", Mut: "none"}}, v(3, "access", "none"),
+			{Op: "tick", Ms: 1500}, {Op: "refresh", TTLms: 2000, Tok: Pres{Base: 3, Which: "refresh", Mut: "none"}}, v(6, "access", "none"), v(3, "access", "none"),
+			{Op: "tick", Ms: 1500}, v(6, "access", "none"), {Op: "tick", Ms: 5000}, {Op: "refresh", TTLms: 2000, Tok: Pres{Base: 6, Which: "refresh", Mut: "none"}}}},
 		// ... and validating the expired access token first deletes the refresh token with it: the session cannot be renewed at all
 		{Ops: []Op{sec, cs(2000, 600000), {Op: "tick", Ms: 3500}, v(1, "access", "none"), {Op: "refresh", Tok: Pres{Base: 1, Which: "refresh", Mut: "none"}}, v(4, "access", "none")}},
 		// S9 (iii) no configured secret: a client-minted admin token is accepted
@@ -742,6 +759,9 @@ func runC35(cfg *hx.RunCfg) (*hx.Result, error) {
 			hs, tags = append(hs, genHistory(r)), append(tags, "random")
 		}
 	}
+	for _, h := range hs {
+		normalize(h)
+	}
 	var clockHs, rtHs []*History
 	var clockIdx, rtIdx []int
 	for i, h := range hs {
@@ -753,8 +773,9 @@ func runC35(cfg *hx.RunCfg) (*hx.Result, error) {
 	}
 	// real-time histories (thorough tier): the unmodified auth.go, real sleeps
 	if cfg.Tier == "thorough" && cfg.Replay == "" {
-		for _, h := range corpus()[:8] {
+		for _, h := range corpus()[:10] {
 			rt := &History{RealTime: true}
+			normalize(h)
 			for _, op := range h.Ops {
 				if op.Op == "tick" {
 					op.Op = "sleep"
